@@ -5,7 +5,7 @@ from .common import *
 
 ARTEFACTS = ["G1-consts", "G2-rs-portable"]
 RULE = ("op histories of 1-40 ops over up to 4 registers: new(mode), upd/updw(size class), clone, fin, xof+fill, cnt, "
-        "at a forced platform; an exhaustive grid prefix p in 0..17 chunks x batch in 1..40 chunks (shrink loop) plus partial-chunk "
+        "(updates through update, Write::write, update_reader over scripted readers incl. short reads, update_rayon, the scripted join) at a forced platform; an exhaustive grid prefix p in 0..17 chunks x batch in 1..40 chunks (shrink loop) plus partial-chunk "
         "prefixes; non-trivial = at least one update after another update or a clone; distinct = distinct script text")
 ASSUMPTIONS = ["update_rayon / update_mmap* / update_reader reduce to update (C08, C11)"]
 NOT_PROVED = []
@@ -27,7 +27,29 @@ def history(rng, plat, nops, big):
         if x < 0.55:
             cls = rng.choice(SIZE_CLASSES)
             n = size_of_class(cls, rng, big)
-            ops.append(f"H {'updw' if rng.random() < 0.1 else 'upd'} {r} {pat(n, rng)}")
+            how = rng.random()
+            if how < 0.70:
+                ops.append(f"H upd {r} {pat(n, rng)}")
+            elif how < 0.78:
+                ops.append(f"H updw {r} {pat(n, rng)}")
+            elif how < 0.90:
+                # update_reader over a scripted reader: the same bytes as one event, as short reads, or in two pieces with an
+                # Interrupted in between
+                sd_ = rng.randrange(1 << 32)
+                style = rng.choice(["one", "short", "two"])
+                if style == "one" or n < 2:
+                    ops.append(f"H updrd {r} d{n}:{sd_}")
+                elif style == "short":
+                    ops.append(f"H updrd {r} s{n}:{sd_}:{rng.choice([1, 7, 64, 1000, 4096, 65535])}" if n <= 40000 else f"H updrd {r} s{n}:{sd_}:{rng.choice([4096, 65535])}")
+                else:
+                    ops.append(f"H updrd {r} d{n}:{sd_} i d{rng.choice([1, 1024, 5000])}:{rng.randrange(1 << 32)} z")
+                tags.add("update_reader")
+            elif how < 0.95:
+                ops.append(f"H updray {r} {rng.choice([1, 2, 4, 16])} {pat(n, rng)}")
+                tags.add("update_rayon")
+            else:
+                ops.append(f"H updsj {r} {''.join(rng.choice('012') for _ in range(3))} {pat(n, rng)}")
+                tags.add("scripted_join")
             tags.add(cls)
             upd_count += 1
         elif x < 0.70:
@@ -50,6 +72,13 @@ def history(rng, plat, nops, big):
     return Script(ops, tags=tuple(sorted(tags)) + (plat,), nontrivial=upd_count >= 2)
 
 
+def normalize(op, out):
+    import re
+    if op.startswith("H updsj ") and re.match(r"^ok \d+$", out):
+        return "ok"
+    return out
+
+
 def stages(tier, seed, witness_search=False):
     rng = Rng(seed)
     scripts = []
@@ -59,6 +88,12 @@ def stages(tier, seed, witness_search=False):
     big = 120 * 1024 if tier == "quick" else 300 * 1024
     for i in range(nhist):
         scripts.append(history(rng, PLATFORMS[i % 5], rng.randrange(1, 41 if tier != "quick" else 25), big))
+    # large first updates through the multithreaded entry point, then more input (state after update_rayon must be update's)
+    for n in ([200 * 1024, 1000000, 133 * 1024 + 1] if tier == "quick" else [200 * 1024, 1000000, 133 * 1024 + 1, 3 * 1024 * 1024 + 5, 2 ** 21]):
+        for plat in ["avx512", "portable"]:
+            scripts.append(Script([f"P plat {plat}", f"H new a {mode_tok(rng)}", f"H updray a {rng.choice([2, 8])} {pat(n, rng)}", "H cnt a",
+                                   f"H upd a {pat(rng.choice([1, 1024, 70000]), rng)}", "H cnt a", "H fin a", "H xof a x", "X fill x 64"],
+                                  tags=("rayon-large", plat)))
     # exhaustive grid for the shrink loop: prefix chunks x batch chunks (+ odd byte prefixes)
     pmax, bmax = (18, 41) if tier != "quick" else (10, 21)
     for p in range(0, pmax):
@@ -71,8 +106,8 @@ def stages(tier, seed, witness_search=False):
             ops += [f"H upd a {pat(b * 1024 + rng.choice([0, 0, 1, -1]), rng)}", "H cnt a", "H fin a",
                     f"H upd a {pat(rng.choice([0, 1, 1024, 3000]), rng)}", "H fin a", "H xof a x", "X fill x 96"]
             scripts.append(Script(ops, tags=("grid", plat)))
-    return [LineStage("histories", scripts)]
+    return [LineStage("histories", scripts, normalize=normalize)]
 
 
 def replay(d, lean_exe):
-    return replay_line(d, lean_exe)
+    return replay_line(d, lean_exe, normalize=normalize)
